@@ -119,7 +119,24 @@ func (c *Command) UnmarshalXML(d *xml.Decoder, start xml.StartElement) error {
 		case xml.StartElement:
 			// Decode sub-elements
 			var err error
-			switch tt.Name.Local {
+			local := tt.Name.Local
+			// Only elements of the command (or data form) namespace are known children;
+			// anything else is a generic node, whatever its local name.
+			switch local {
+			case "x":
+				if tt.Name.Space != "jabber:x:data" {
+					local = ""
+				}
+			case "set":
+				if tt.Name.Space != "http://jabber.org/protocol/rsm" {
+					local = ""
+				}
+			default:
+				if tt.Name.Space != start.Name.Space {
+					local = ""
+				}
+			}
+			switch local {
 
 			case "actions":
 				a := Actions{}
